@@ -12,6 +12,8 @@ BASE_INV = ("0 <= s.state and s.state <= 3 and same(observers, s.obs) and is_dis
             "and implies(s.state != 2, exception is None)")
 METHODS = {
     "subscribe": dict(call="self._subscribe_core(o)", args={"o": "ref:observer"}),
+    # a subscriber may bring a scheduler along: the subjects do not use it - what a new subscriber gets, it gets inside the subscribe call
+    "subscribe_with_scheduler": dict(call="self._subscribe_core(o, sch)", args={"o": "ref:observer", "sch": "ref:scheduler"}, spec="subscribe"),
     "unsubscribe": dict(call="InnerSubscription(self, o).dispose()", args={"o": "ref:observer"}),
     "on_next": dict(call="self.on_next(v)", args={"v": "val"}),
     "on_error": dict(call="self.on_error(e)", args={"e": "exc"}),
